@@ -89,12 +89,21 @@ class Encoder:
         src = Path(mod.__file__).read_text()
         tree = ast.parse(src)
         node = next(n for n in tree.body if isinstance(n, ast.FunctionDef) and n.name == fn.__name__)
-        params = [a.arg for a in node.args.args]
+        a = node.args
+        params = [x.arg for x in [*a.posonlyargs, *a.args]]
+        other = bool(a.vararg or a.kwonlyargs or a.kwarg)
+        if a.posonlyargs:
+            self.features.add("sig_posonly")
+        if other:
+            self.features.add("sig_other_params")
         self.prog[q] = {}  # placeholder (recursion guard)
         glob: dict[str, list] = {}
-        local = set(params) | assigned_names(node.body)
+        local = (set(params) | {x.arg for x in a.kwonlyargs} | {x.arg for x in (a.vararg, a.kwarg) if x}
+                 | assigned_names(node.body))
+        self.paths = used_paths(node)
         body = [self.stmt(s, mod, local, glob) for s in node.body]
-        self.prog[q] = {"name": q, "params": params, "body": body, "globals": [[k, v] for k, v in glob.items()]}
+        self.prog[q] = {"name": q, "params": params, "body": body, "globals": [[k, v] for k, v in glob.items()],
+                        "nposonly": len(a.posonlyargs), "otherparams": other}
         return q
 
     # -- expressions
@@ -110,6 +119,74 @@ class Encoder:
         if isinstance(obj, int):
             return ["int", rs(obj)]
         return ["other"]
+
+    def fn_gval(self, obj):
+        """a callable object -> ["fn", TARGET] (a user function is encoded too)"""
+        key = self.known_by_id.get(id(obj))
+        if key is None and isinstance(obj, types.FunctionType) and self.has_source(obj):
+            self.features.add("call_user" if obj.__module__ in self.gen_modules else "call_library")
+            saved = self.paths
+            q = self.add_fn(obj)
+            self.paths = saved
+            return ["fn", ["user", q]]
+        self.features.add("call_known" if key else "call_foreign")
+        return ["fn", ["known", key or f"?{getattr(obj, '__name__', 'callable')}"]]
+
+    def obj_gval(self, obj):
+        if callable(obj):
+            return self.fn_gval(obj)
+        return self.gval(obj)
+
+    def import_items(self, s):
+        """function-local import statement -> [[name, ITEM]]; ITEM = ["flt", q] | ["int", q] | ["objs", [[path, GVAL]]] | ["other"]"""
+        items = []
+
+        def module_item(name, module):
+            ps = [[name, ["other"]]]
+            for path in sorted(self.paths):
+                parts = path.split(".")
+                if parts[0] != name or len(parts) < 2:
+                    continue
+                obj = module
+                for a in parts[1:]:
+                    obj = getattr(obj, a, _MISSING)
+                    if obj is _MISSING:
+                        break
+                if obj is not _MISSING:
+                    ps.append([path, self.obj_gval(obj)])
+            return [name, ["objs", ps]]
+
+        for al in s.names:
+            try:
+                if isinstance(s, ast.Import):
+                    if al.asname is None and "." in al.name:
+                        return None  # `import a.b` binds `a`: not encoded
+                    items.append(module_item(al.asname or al.name, importlib.import_module(al.name)))
+                    continue
+                if s.level or s.module is None:
+                    return None
+                module = importlib.import_module(s.module)
+                el = getattr(module, al.name, _MISSING)
+            except Exception:  # noqa: BLE001
+                return None
+            name = al.asname or al.name
+            if el is _MISSING or al.name == "*":
+                return None
+            if isinstance(el, bool):
+                items.append([name, ["other"]])
+            elif isinstance(el, float):
+                items.append([name, ["flt", rs(Fraction(el))] if math.isfinite(el) else ["other"]])
+            elif isinstance(el, int):
+                items.append([name, ["int", rs(el)]])
+                self.features.add("local_import_int")
+            elif callable(el):
+                items.append([name, ["objs", [[name, self.fn_gval(el)]]]])
+            elif isinstance(el, types.ModuleType):
+                items.append(module_item(name, el))
+            else:
+                items.append([name, ["other"]])
+                self.features.add("local_import_other")
+        return items
 
     def resolve_path(self, node, mod):
         """ast.Name / ast.Attribute chain -> (dotted text, object or None)"""
@@ -138,10 +215,13 @@ class Encoder:
                 return ["unsupported"]
             return ["num", rs(Fraction(v))]
         if isinstance(n, ast.Name):
+            # the module-level object of that name is recorded even when the name is local: the translator falls back
+            # to it whenever its symbol table has no entry (Python's own semantics in the model looks at locals first)
+            obj = vars(mod).get(n.id, _MISSING)
+            if obj is not _MISSING and n.id not in glob:
+                glob[n.id] = self.gval(obj)
             if n.id not in local:
-                obj = vars(mod).get(n.id, _MISSING)
                 if obj is not _MISSING:
-                    glob[n.id] = self.gval(obj)
                     self.features.add("global_" + glob[n.id][0])
                 else:
                     self.features.add("undefined_name")
@@ -195,18 +275,12 @@ class Encoder:
             if obj is None or not callable(obj):
                 self.features.add("call_unresolved")
                 return [tag, path, args]
-            key = self.known_by_id.get(id(obj))
-            if key is None and isinstance(obj, types.FunctionType) and self.has_source(obj):
-                self.features.add("call_user" if obj.__module__ in self.gen_modules else "call_library")
-                q = self.add_fn(obj)
+            if isinstance(obj, types.FunctionType) and self.known_by_id.get(id(obj)) is None and self.has_source(obj):
                 if len(args) < obj.__code__.co_argcount and not n.keywords:
                     self.features.add("call_fewer_args")
                 if obj.__defaults__ or obj.__kwdefaults__ or obj.__code__.co_kwonlyargcount:
                     self.features.add("callee_defaults")
-                glob[path] = ["fn", ["user", q]]
-                return [tag, path, args]
-            self.features.add("call_known" if key else "call_foreign")
-            glob[path] = ["fn", ["known", key or f"?{getattr(obj, '__name__', 'callable')}"]]
+            glob[path] = self.fn_gval(obj)
             return [tag, path, args]
         self.features.add("unsupported_expr")
         return ["unsupported"]
@@ -218,10 +292,17 @@ class Encoder:
             if len(s.targets) == 1 and isinstance(s.targets[0], ast.Name):
                 return ["assign", s.targets[0].id, E(s.value)]
             t = s.targets[0]
+            if len(s.targets) > 1 and all(isinstance(x, ast.Name) for x in s.targets):
+                self.features.add("chained_assign")
+                return ["multi", [x.id for x in s.targets], E(s.value)]
             if (len(s.targets) == 1 and isinstance(t, ast.Tuple) and isinstance(s.value, ast.Tuple)
                     and all(isinstance(e, ast.Name) for e in t.elts)):
                 self.features.add("tuple_assign")
                 return ["tuple", [e.id for e in t.elts], [E(v) for v in s.value.elts]]
+            if (len(s.targets) == 1 and isinstance(t, ast.Tuple) and not isinstance(s.value, ast.Tuple)
+                    and all(isinstance(e, ast.Name) for e in t.elts)):
+                self.features.add("iter_unpack")
+                return ["unpack", [e.id for e in t.elts], E(s.value)]
             self.features.add("opaque_stmt")
             return ["opaque"]
         if isinstance(s, ast.AugAssign) and isinstance(s.target, ast.Name):
@@ -242,11 +323,15 @@ class Encoder:
         if isinstance(s, ast.Pass) or (isinstance(s, ast.Expr) and isinstance(s.value, ast.Constant)):
             return ["skip"]
         if isinstance(s, (ast.Import, ast.ImportFrom)):
-            # function-local imports (ctx.modules / ctx.fns) are not modelled: oracle-only stratum
+            # function-local imports: `ctx.modules` / `ctx.fns` / `ctx.symbols` of the model (PyStmt.importS)
             self.features.add("local_import")
             if any(a.asname for a in s.names):
                 self.features.add("local_import_alias")
-            return ["skip"]  # so that the side-condition flags are still computed for the rest of the body
+            items = self.import_items(s)
+            if items is None:
+                self.features.add("local_import_unencoded")
+                return ["skip"]
+            return ["import", items]
         self.features.add("opaque_stmt")
         return ["opaque"]
 
@@ -260,6 +345,24 @@ def assigned_names(body) -> set[str]:
         for n in ast.walk(s):
             if isinstance(n, ast.Name) and isinstance(n.ctx, ast.Store):
                 out.add(n.id)
+            elif isinstance(n, (ast.Import, ast.ImportFrom)):
+                out |= {(a.asname or a.name).split(".")[0] for a in n.names}
+    return out
+
+
+def used_paths(fn_node) -> set[str]:
+    """source text of every dotted attribute chain rooted at a name that occurs in the function"""
+    out: set[str] = set()
+    for n in ast.walk(fn_node):
+        if isinstance(n, ast.Attribute):
+            parts = []
+            m = n
+            while isinstance(m, ast.Attribute):
+                parts.append(m.attr)
+                m = m.value
+            if isinstance(m, ast.Name):
+                parts.append(m.id)
+                out.add(".".join(reversed(parts)))
     return out
 
 
